@@ -114,7 +114,8 @@ def gen_scenario(rng, frontend):
             e['lp'] = True          # delivered inside a link-layer envelope (transparent)
         if e['kind'] == 'data' and rng.random() < 0.2:
             e['wide'] = True
-    return {'frontend': frontend, 'ints': ints, 'datas': datas, 'events': out, 'shared_param': rng.random() < 0.25, 'shared_validators': rng.random() < 0.5}
+    return {'frontend': frontend, 'ints': ints, 'datas': datas, 'events': out, 'shared_param': rng.random() < 0.25, 'shared_validators': rng.random() < 0.5,
+            'reenter': rng.random() < 0.3}
 
 
 # ------------------------------------------------------------------ model
@@ -302,6 +303,9 @@ class Run:
         self.data_digest = []
         self.int_wires = {}
         self.express_errors = {}
+        self.nested = []       # (id, virtual ms of the call, task | exception) of Interests expressed from inside validators
+        self.nested_obs = []
+        self.shutdown_at = None
 
 
 def classify_exc(e):
@@ -358,10 +362,33 @@ def execute(sc):
                 return vcache[key_]
             return make_validator_obj(it)
 
+        async def plain_pass(*a):
+            return types.ValidResult.PASS if fe == 'v2' else True
+
+        def nested(it):
+            # re-entrancy: a validator that itself expresses an Interest on the same application (as certificate-fetching validators
+            # do), for a name UNDER the one being validated; nobody answers it: it ends with a timeout 50 ms later and must not
+            # disturb the Interest whose Data is being validated (nor any other)
+            if not sc.get('reenter') or it['id'] >= 100:
+                return
+            nid_ = 5000 + len(R.nested)
+            nm_ = list(NAMES[it['name']]) + [rc.comp(8, b'nested%d' % nid_)]
+            t0_ = S.now_ms()
+            try:
+                if fe == 'v2':
+                    c_ = the_app.express(nm_, plain_pass, lifetime=50, nonce=nid_)
+                else:
+                    c_ = the_app.express_interest(nm_, validator=plain_pass, lifetime=50, nonce=nid_)
+            except Exception as ex_:   # noqa
+                R.nested.append((nid_, t0_, ex_))
+                return
+            R.nested.append((nid_, t0_, asyncio.ensure_future(waiter(nid_, c_))))
+
         def make_validator_obj(it):
             if fe == 'v2':
                 async def v(name, sig, ctx):
                     R.validator_log.append((it['id'], 'call', S.now_ms()))
+                    nested(it)
                     if it['lat']:
                         await asyncio.sleep(it['lat'] / 1000.0)
                     R.validator_log.append((it['id'], 'ret', S.now_ms()))
@@ -369,6 +396,7 @@ def execute(sc):
             else:
                 async def v(name, sig):
                     R.validator_log.append((it['id'], 'call', S.now_ms()))
+                    nested(it)
                     if it['lat']:
                         await asyncio.sleep(it['lat'] / 1000.0)
                     R.validator_log.append((it['id'], 'ret', S.now_ms()))
@@ -492,11 +520,19 @@ def execute(sc):
                 else:
                     the_app.shutdown()
                 shutdown = True
+                R.shutdown_at = S.now_ms() if R.shutdown_at is None else R.shutdown_at
         # let everything run out: all deadlines and validators
         horizon = max([it['te'] + it['L'] for it in sc['ints']] + [e['t'] for e in sc['events']]) + \
             max(it['lat'] for it in sc['ints']) + 50
         await S.sleep_until_ms(horizon)
         R.open = [i for i, t in tasks.items() if not t.done()]
+        for nid_, t0_, tk_ in R.nested:
+            if isinstance(tk_, BaseException):
+                R.nested_obs.append((nid_, t0_, ('express-raised', tk_, t0_)))
+            else:
+                R.nested_obs.append((nid_, t0_, R.obs.pop(nid_, ('open', None, None))))
+                if not tk_.done():
+                    tk_.cancel()
         # probe phase: a fresh Interest on every name must still be satisfiable
         if not shutdown:
             base = horizon + 10
@@ -626,6 +662,16 @@ def judge(ctx, sc, R, S):
                        dict(w, interest=it, observed=(gk, str(gd), gt)))
     if getattr(R, 'open', None):
         pass   # reported through outcome 'open'
+    for nid_, t0_, (nk, nd, nt) in R.nested_obs:
+        ctx.event('interest-expressed-from-inside-a-validator')
+        sd = R.shutdown_at
+        if sd is not None and sd <= t0_ + 51:
+            ok_ = nk in ('cancel', 'timeout', 'express-raised', 'error') or (nk == 'open' and False)
+        else:
+            ok_ = nk == 'timeout' and nt is not None and abs(nt - (t0_ + 50)) <= TOL
+        if not ok_:
+            ctx.report(f'nested-interest-outcome:{fe}:{nk}' + (f':{type(nd).__name__}' if isinstance(nd, BaseException) else ''),
+                       f'an unanswered Interest expressed from inside a validator at {t0_} ms (lifetime 50) ended with {nk}@{nt}', w)
     for key, res in R.probe.items():
         if res[0] != 'data':
             d = res[1]
@@ -764,7 +810,8 @@ def run(ctx):
     for lab in ('equal-interests-second-ends-first', 'equal-interests-second-cancelled', 'face-lost', 'late-await-data', 'late-await-nothing', 'late-await-nack', 'cancel-then-nack', 'cancel-then-data', 'reexpress-while-validating', 'tie-data-at-deadline', 'one-data-many-interests',
                 'shutdown-mixed', 'nack-for-prefix-of-pending', 'verdicts-differ', 'implicit-digest'):
         ctx.need_class('template:' + lab)
-    for k in ('outcome-data', 'outcome-timeout', 'outcome-nack', 'outcome-cancel', 'outcome-valfail', 'validator-calls', 'awaited-later-than-expressed', 'other-application-unaffected', 'signed-interest-without-parameters', 'data-with-wide-integers'):
+    for k in ('outcome-data', 'outcome-timeout', 'outcome-nack', 'outcome-cancel', 'outcome-valfail', 'validator-calls', 'awaited-later-than-expressed', 'other-application-unaffected', 'signed-interest-without-parameters', 'data-with-wide-integers',
+              'interest-expressed-from-inside-a-validator'):
         ctx.need_event(k)
     ctx.assumptions = ['exact ties (packet / validator completion / deadline in the same millisecond) accept either order',
                        'Data arrived in time but validator slower than the deadline: Data/ValidationFailure at validator completion or timeout at the deadline are both accepted here (C05 decides that clause)',
